@@ -162,6 +162,10 @@ impl<T> Store<T> {
         self.entries.reserve_exact(additional);
     }
 
+    pub(super) fn shrink_to_fit(&mut self) {
+        self.entries.shrink_to_fit();
+    }
+
     /// Insert an object into the store
     pub(super) fn insert<O>(&mut self, item: O) -> Ref<O>
     where
